@@ -1,10 +1,10 @@
 """C03 - decoded genotypes follow nearest-mutation inheritance and missing-data rules."""
 LEVEL = "other"
-EXPLANATION = ("Bounded only in this version: variants(), Variant.decode() in arbitrary site order, genotype_matrix with user "
+EXPLANATION = ("Proved: tsk_variant_visit (sets exactly that genotype, reports whether it was missing) and tsk_variant_mark_missing (over the ghost root list of the C01 well-formedness: exactly the roots without children that are in the sample index map become MISSING, every other genotype unchanged). Bounded: variants(), Variant.decode() in arbitrary site order, genotype_matrix with user "
                "alleles and haplotypes() are compared with nearest-mutation inheritance recomputed from the table columns over "
                "seeded small tree sequences x sample subsets (incl. non-sample nodes) x isolated_as_missing. The kernels of "
                "genotypes.c are not under contract yet; the tree positions the decoder seeks to are proved under C06.")
-C_FUNCS = []
+C_FUNCS = [("genotypes.c", "tsk_variant_visit"), ("genotypes.c", "tsk_variant_mark_missing")]
 BOUNDED = [{"name": "genotypes_vs_tables", "module": "standins.c03_genotypes", "timeout": 900}]
-UNVERIFIED = ["tsk_variant_decode, tsk_variant_mark_missing, tsk_variant_update_genotypes_*, tsk_variant_get_allele_index (bounded only)"]
+UNVERIFIED = ["tsk_variant_decode, tsk_variant_update_genotypes_sample_list, tsk_variant_traverse, tsk_variant_get_allele_index, allele expansion (bounded only)"]
 ASSUMPTIONS = []
